@@ -13,7 +13,7 @@ use std::time::{Duration, Instant};
 
 pub static PROP: Prop = Prop {
     id: "C13",
-    rule: "cases, each in a fresh child process (so that first use is really first use): (i) held initialisation: thread A makes the process's first engine call (parse, execute, or a register_* of a fresh or a built-in name); the init probe parks A after registration stage s in {1,2,3} (only prefix operators / prefix+infix / all operators but no functions registered); 1-14 threads B then make their first calls (programs that need the missing tables: 1+2, 2 ++, min(1,2), not true, 1 in [1], - 1; registrations of fresh names and overrides of built-ins min, +, -, ++); after a grace period the harness records which B returned while A was still parked, releases A and joins everything under a watchdog; (ii) free races: 2-16 threads released by one barrier, all making first calls; (iii) registration vs evaluation: thread R re-registers name N (function / prefix / infix / postfix) alternately with handlers h1 and h2 2000-20000 times while 2-8 threads evaluate texts that use N once or twice; after the race every evaluator evaluates once more and must see the handler registered last; a directed variant in which the first invocation of h1 parks until R has registered h2; and a precedence variant in which `hi` alternates between precedence 105 and 125 while the other threads parse `1 + 2 hi 3 * 4 hi 5 + 6` (every tree must be one of the two sequential ones). Oracle: no panic on any thread, all threads joined within the watchdog, every result is one that some sequential order of the calls produces (fixed reference value, or - when an override of the name involved is registered concurrently - the built-in or the override result; for N: every use inside one evaluation shows the same handler, h1 or h2, never an error or another shape), a B thread that returned while A was parked must be correct, and after the join every registration made is in effect (final battery). Non-trivial: (i) at least one B needed a table that was missing while A was parked, (ii) >= 2 different call kinds raced, (iii) an evaluator thread observed both handlers; distinct by (mode, A kind, stage, B kinds / thread count / registry kind and text).",
+    rule: "cases, each in a fresh child process (so that first use is really first use): (i) held initialisation: thread A makes the process's first engine call (parse, execute, or a register_* of a fresh or a built-in name); the init probe parks A after registration stage s in {1,2,3} (only prefix operators / prefix+infix / all operators but no functions registered); 1-14 threads B then make their first calls (programs that need the missing tables: 1+2, 2 ++, min(1,2), not true, 1 in [1], - 1; registrations of fresh names and overrides of built-ins min, +, -, ++); after a grace period the harness records which B returned while A was still parked, releases A and joins everything under a watchdog; (ii) free races: 2-16 threads released by one barrier, all making first calls (programs, registrations, and programs nested 120 and 150 levels deep); (iii) registration vs evaluation: thread R re-registers name N (function / prefix / infix / postfix) alternately with handlers h1 and h2 2000-20000 times while 2-8 threads evaluate texts that use N once, twice, or once after `n += 1` on a fresh context with n = 0 (the result must show n = 1: one evaluation, one handler); after the race every evaluator evaluates once more and must see the handler registered last; a directed variant in which the first invocation of h1 parks until R has registered h2; and a precedence variant in which `hi` alternates between precedence 105 and 125 while the other threads parse `1 + 2 hi 3 * 4 hi 5 + 6` (every tree must be one of the two sequential ones). (iv) fresh-word races: one thread registers 30000 fresh word operators vh_w0, vh_w1 ... (prefix, infix or postfix) one after the other while 1-3 threads are already evaluating programs that spell the word being registered; an evaluation that starts after register_* has returned must read the operator, and afterwards every word is an operator. Oracle: no panic on any thread, all threads joined within the watchdog, every result is one that some sequential order of the calls produces (fixed reference value, or - when an override of the name involved is registered concurrently - the built-in or the override result; for N: every use inside one evaluation shows the same handler, h1 or h2, never an error or another shape), a B thread that returned while A was parked must be correct, and after the join every registration made is in effect (final battery). Non-trivial: (i) at least one B needed a table that was missing while A was parked, (ii) >= 2 different call kinds raced, (iii) an evaluator thread observed both handlers; distinct by (mode, A kind, stage, B kinds / thread count / registry kind and text).",
     assumptions: &[
         "the harness owns only the interleavings it can force (parking A between init stages through the cfg-guarded probe; parking a handler); other interleavings are sampled by free-running repetition",
         "watchdog: 10 s against milliseconds; an expiry must reproduce on two more runs to count as a deadlock",
@@ -36,7 +36,8 @@ fn budget(t: Tier) -> Budget {
     }
 }
 
-pub const CALLS: [&str; 16] = [
+pub const CALLS: [&str; 18] = [
+    "execdeep:150", "execdeep:120",
     "parse:1+2", "exec:1+2", "exec:2 ++", "exec:min(1,2)", "exec:not true", "exec:1 in [1]", "exec:- 1", "exec:[1+2 , 2 ++ , min(3,4) , - 5]", "reg_fn:fresh", "reg_fn:min",
     "reg_prefix:fresh", "reg_prefix:-", "reg_infix:fresh", "reg_infix:+", "reg_postfix:fresh", "reg_postfix:++",
 ];
@@ -56,6 +57,23 @@ fn do_call(kind: &str, id: i64) -> String {
                 Ok(a) => format!("Parsed({})", crate::model::sexp_ast(&a)),
                 Err(e) => format!("Err({})", e),
             },
+            "execdeep" => {
+                // a program nested `arg` levels deep, evaluated like any other
+                let n: usize = arg.parse().unwrap_or(100);
+                let text = format!("{}1{}", "[".repeat(n), "]".repeat(n));
+                match execute(&text, Context::new()) {
+                    Ok(v) => format!("Ok({})", V::from_value(&v).key()),
+                    Err(e) => format!("Err({})", e),
+                }
+            }
+            "exec" if arg.starts_with("n += 1") => {
+                let mut ctx = Context::new();
+                ctx.set_variable("n", Value::from(0));
+                match execute(arg, ctx) {
+                    Ok(v) => format!("Ok({})", V::from_value(&v).key()),
+                    Err(e) => format!("Err({})", e),
+                }
+            }
             "exec" => match execute(arg, Context::new()) {
                 Ok(v) => format!("Ok({})", V::from_value(&v).key()),
                 Err(e) => format!("Err({})", e),
@@ -246,12 +264,13 @@ fn reg_n(kind: &str, id: i64, park: Option<Arc<(Mutex<u8>, Condvar)>>) {
     }
 }
 
-pub fn texts_for(kind: &str) -> [&'static str; 2] {
+pub fn texts_for(kind: &str) -> [&'static str; 3] {
+    // the third text is not idempotent on its (fresh) context: replaying it would show
     match kind {
-        "function" => ["hi(1)", "[hi(1) , hi(2)]"],
-        "prefix" => ["hi 1", "[hi 1 , hi 2]"],
-        "infix" => ["1 hi 2", "[1 hi 2 , 3 hi 4]"],
-        _ => ["1 hi", "[1 hi , 2 hi]"],
+        "function" => ["hi(1)", "[hi(1) , hi(2)]", "n += 1 ; hi(n)"],
+        "prefix" => ["hi 1", "[hi 1 , hi 2]", "n += 1 ; hi n"],
+        "infix" => ["1 hi 2", "[1 hi 2 , 3 hi 4]", "n += 1 ; n hi 2"],
+        _ => ["1 hi", "[1 hi , 2 hi]", "n += 1 ; n hi"],
     }
 }
 
@@ -259,7 +278,7 @@ fn worker_regrace(doc: &J) -> J {
     let kind = doc["kind"].as_str().unwrap_or("infix").to_string();
     let iters = doc["iters"].as_u64().unwrap_or(2000);
     let nthreads = doc["threads"].as_u64().unwrap_or(4) as usize;
-    let which = doc["text"].as_u64().unwrap_or(0) as usize % 2;
+    let which = doc["text"].as_u64().unwrap_or(0) as usize % 3;
     let text = texts_for(&kind)[which].to_string();
     if doc["directed"].as_bool() == Some(true) {
         let park = Arc::new((Mutex::new(0u8), Condvar::new()));
@@ -367,6 +386,94 @@ fn worker_prec_race(iters: u64, nthreads: usize) -> J {
     json!({"per_thread": per_thread, "text": PREC_TEXT, "kind": "infix-precedence", "evaluations": count.load(Ordering::Relaxed)})
 }
 
+/// first registrations of fresh word operators while other threads are already parsing programs
+/// that spell them: a parse that STARTS after register_* has returned must read the operator
+fn worker_freshrace(doc: &J) -> J {
+    let words = doc["words"].as_u64().unwrap_or(1000) as usize;
+    let readers = doc["readers"].as_u64().unwrap_or(2).max(1) as usize;
+    let kind = doc["kind"].as_str().unwrap_or("prefix").to_string();
+    let cur = Arc::new(AtomicUsize::new(0));
+    let registered = Arc::new(AtomicUsize::new(0)); // number of words whose register call has returned
+    let stop = Arc::new(AtomicBool::new(false));
+    let text_of = |kind: &str, i: usize| match kind {
+        "prefix" => format!("vh_w{} 5", i),
+        "postfix" => format!("5 vh_w{}", i),
+        _ => format!("5 vh_w{} 6", i),
+    };
+    let mut hs = vec![];
+    for _ in 0..readers {
+        let (cur, registered, stop, kind) = (cur.clone(), registered.clone(), stop.clone(), kind.clone());
+        hs.push(std::thread::spawn(move || {
+            // per word: the first result observed by a parse that began after the registration returned
+            let mut lost: Vec<J> = vec![];
+            let mut seen_before = 0u64;
+            let mut done = 0usize; // words this reader has finished with
+            while !stop.load(Ordering::SeqCst) || done < registered.load(Ordering::SeqCst) {
+                let i = cur.load(Ordering::SeqCst).max(done);
+                if i < done || i >= usize::MAX / 2 {
+                    std::thread::yield_now();
+                    continue;
+                }
+                let was_registered = registered.load(Ordering::SeqCst) > i;
+                let text = text_of(&kind, i);
+                let r = guard(|| execute(&text, Context::new()).map(|v| V::from_value(&v).key()).map_err(|e| e.to_string()));
+                let is_op = matches!(&r, Ok(Ok(k)) if k == "n-1");
+                if is_op {
+                    done = i + 1;
+                } else if was_registered {
+                    if lost.len() < 5 {
+                        lost.push(json!({"word": format!("vh_w{}", i), "program": text, "result": format!("{:?}", r)}));
+                    }
+                    done = i + 1;
+                } else {
+                    seen_before += 1;
+                    if stop.load(Ordering::SeqCst) {
+                        break;
+                    }
+                }
+            }
+            (lost, seen_before)
+        }));
+    }
+    for i in 0..words {
+        cur.store(i, Ordering::SeqCst);
+        // let the readers meet the spelling as a plain name first
+        for _ in 0..(i % 7) {
+            std::thread::yield_now();
+        }
+        let name = format!("vh_w{}", i);
+        match kind.as_str() {
+            "prefix" => expression_engine::register_prefix_op(&name, Arc::new(|_| Ok(Value::from(-1)))),
+            "postfix" => expression_engine::register_postfix_op(&name, Arc::new(|_| Ok(Value::from(-1)))),
+            _ => expression_engine::register_infix_op(&name, 100, expression_engine::InfixOpType::CALC, expression_engine::InfixOpAssociativity::LEFT, Arc::new(|_, _| Ok(Value::from(-1)))),
+        }
+        registered.store(i + 1, Ordering::SeqCst);
+    }
+    stop.store(true, Ordering::SeqCst);
+    let mut lost: Vec<J> = vec![];
+    let mut before = 0u64;
+    let mut hung = false;
+    for h in hs {
+        match h.join() {
+            Ok((l, b)) => {
+                lost.extend(l);
+                before += b;
+            }
+            Err(_) => hung = true,
+        }
+    }
+    // final observation from this thread: every word is an operator now
+    let mut final_lost = vec![];
+    for i in 0..words {
+        let text = text_of(&kind, i);
+        let r = guard(|| execute(&text, Context::new()).map(|v| V::from_value(&v).key()).map_err(|e| e.to_string()));
+        if !matches!(&r, Ok(Ok(k)) if k == "n-1") && final_lost.len() < 5 {
+            final_lost.push(json!({"word": format!("vh_w{}", i), "program": text, "result": format!("{:?}", r)}));
+        }
+    }
+    json!({"lost": lost, "final_lost": final_lost, "parses_before_registration": before, "reader_died": hung})
+}
+
 pub fn worker() -> i32 {
     use std::io::Read;
     install_panic_hook();
@@ -376,6 +483,7 @@ pub fn worker() -> i32 {
     let out = match doc["mode"].as_str().unwrap_or("") {
         "held" => worker_held(&doc),
         "race" => worker_race(&doc),
+        "freshrace" => worker_freshrace(&doc),
         _ => worker_regrace(&doc),
     };
     println!("{}", out);
@@ -392,6 +500,10 @@ fn allowed(kind: &str, all: &[String]) -> Vec<String> {
     let mut v: Vec<String> = vec![];
     match op {
         "parse" => v.push("Parsed((bin s1:+ (num 1e-0) (num 2e-0)))".into()),
+        "execdeep" => {
+            let n: usize = arg.parse().unwrap_or(100);
+            v.push(format!("Ok({}n1{})", "[".repeat(n), "]".repeat(n)));
+        }
         "exec" => match arg {
             "1+2" => {
                 v.push("Ok(n3)".into());
@@ -518,6 +630,38 @@ fn run_child_json(scenario: &J, env: &Env, st: &mut Stats) -> Result<J, Failure>
     }
 }
 
+/// fresh word operators are registered while other threads already parse programs spelling them
+pub fn run_freshrace(kind: &str, readers: usize, words: u64, env: &Env, st: &mut Stats) -> CaseResult {
+    let scenario = json!({"mode": "freshrace", "kind": kind, "readers": readers, "words": words});
+    st.eval();
+    st.hist(&format!("freshrace:{}", kind));
+    let doc = run_child_json(&scenario, env, st)?;
+    st.sample(|| json!({"scenario": scenario, "observed": doc}));
+    if doc["parses_before_registration"].as_u64().unwrap_or(0) > 0 {
+        st.nontrivial(&format!("freshrace:{}:{}", kind, readers));
+    }
+    st.hist_add("freshrace:parses-before-registration", doc["parses_before_registration"].as_u64().unwrap_or(0));
+    for key in ["lost", "final_lost"] {
+        if let Some(l) = doc[key].as_array().and_then(|a| a.first()) {
+            return Err(Failure::new(
+                format!("lost-registration:fresh-word-operator:{}", kind),
+                format!(
+                    "register_{}_op({:?}) had returned, yet a later evaluation of `{}` gave {} (the word is still read as a plain name); other threads were parsing programs with that spelling while it was being registered",
+                    kind,
+                    l["word"].as_str().unwrap_or(""),
+                    l["program"].as_str().unwrap_or(""),
+                    l["result"].as_str().unwrap_or("")
+                ),
+                scenario,
+            ));
+        }
+    }
+    if doc["reader_died"].as_bool() == Some(true) {
+        return Err(Failure::new("panic:freshrace", format!("a reader thread died: {}", doc), scenario));
+    }
+    Ok(())
+}
+
 pub fn run_held(a: &str, stage: u64, bs: &[&str], env: &Env, st: &mut Stats) -> CaseResult {
     let scenario = json!({"mode": "held", "a": a, "stage": stage, "b": bs, "grace_ms": 25});
     st.eval();
@@ -579,6 +723,27 @@ fn handler_ids(result: &str) -> Option<Vec<i64>> {
 }
 
 fn judge_reg_result(kind: &str, text_idx: usize, result: &str, scenario: &J) -> CaseResult {
+    if text_idx == 2 {
+        // `n += 1 ; <one use of hi with n>` on a fresh context with n = 0
+        let ok = [1, 2].iter().any(|id| {
+            let want = match kind {
+                "infix" => format!("Ok([n{},n1,n2])", id),
+                _ => format!("Ok([n{},n1])", id),
+            };
+            result == want
+        });
+        if ok {
+            return Ok(());
+        }
+        if result.starts_with("PANIC") {
+            return Err(Failure::new(format!("panic:{}", panic_file(&result[6..])), format!("evaluation during re-registration panicked: {}", result), scenario.clone()));
+        }
+        return Err(Failure::new(
+            format!("replayed-or-torn:{}", kind),
+            format!("`{}` on a fresh context (n = 0) evaluated to {} while `hi` was being re-registered; a single evaluation increments n once and uses one handler", texts_for(kind)[2], result),
+            scenario.clone(),
+        ));
+    }
     let uses = if text_idx == 0 { 1 } else { 2 };
     if result.starts_with("PANIC") {
         return Err(Failure::new(format!("panic:{}", panic_file(&result[6..])), format!("evaluation during re-registration panicked: {}", result), scenario.clone()));
@@ -650,7 +815,7 @@ fn run_prec_race(threads: usize, iters: u64, env: &Env, st: &mut Stats) -> CaseR
     }
 }
 
-fn run_regrace(kind: &str, text_idx: usize, threads: usize, iters: u64, directed: bool, env: &Env, st: &mut Stats) -> CaseResult {
+pub fn run_regrace(kind: &str, text_idx: usize, threads: usize, iters: u64, directed: bool, env: &Env, st: &mut Stats) -> CaseResult {
     if kind == "infix-precedence" {
         return run_prec_race(threads, iters, env, st);
     }
@@ -737,9 +902,9 @@ fn fixed(env: &Env, st: &mut Stats) -> CaseResult {
     }
     // directed torn-registration scenario and a free race per registry kind
     for k in REG_KINDS {
-        for text_idx in 0..2 {
+        for text_idx in 0..3 {
             i += 1;
-            if env.mine(i) && k != "infix-precedence" {
+            if env.mine(i) && k != "infix-precedence" && text_idx < 2 {
                 let r = run_regrace(k, text_idx, 1, 0, true, env, st);
                 tolerate_known(env, st, r)?;
             }
@@ -747,6 +912,15 @@ fn fixed(env: &Env, st: &mut Stats) -> CaseResult {
             if env.mine(i) {
                 let r = run_regrace(k, text_idx, 6, env.tier.pick(20_000, 200_000), false, env, st);
                 tolerate_known(env, st, r)?;
+            }
+        }
+    }
+    // first registrations of fresh word operators racing with parses of the same spelling
+    for kind in ["prefix", "infix", "postfix"] {
+        for readers in [1usize, 3] {
+            i += 1;
+            if env.mine(i) {
+                run_freshrace(kind, readers, env.tier.pick(30_000, 300_000), env, st)?;
             }
         }
     }
@@ -769,7 +943,7 @@ fn case(src: &mut Src, st: &mut Stats, env: &Env) -> CaseResult {
         }
         _ => {
             let k = *src.choose(&REG_KINDS);
-            let text_idx = src.pick(2);
+            let text_idx = src.pick(3);
             let threads = 2 + src.pick(7);
             run_regrace(k, text_idx, threads, 2000 + 2000 * src.pick(4) as u64, false, env, st)
         }
@@ -777,7 +951,7 @@ fn case(src: &mut Src, st: &mut Stats, env: &Env) -> CaseResult {
     tolerate_known(env, st, r)
 }
 
-fn replay(case: &J, st: &mut Stats, env: &Env) -> CaseResult {
+pub fn replay(case: &J, st: &mut Stats, env: &Env) -> CaseResult {
     match case["mode"].as_str().unwrap_or("") {
         "held" => {
             let bs: Vec<String> = case["b"].as_array().map(|a| a.iter().map(|x| x.as_str().unwrap_or("").to_string()).collect()).unwrap_or_default();
@@ -785,6 +959,13 @@ fn replay(case: &J, st: &mut Stats, env: &Env) -> CaseResult {
             let a = CALLS.iter().find(|c| Some(**c) == case["a"].as_str()).copied().unwrap_or("parse:1+2");
             run_held(a, case["stage"].as_u64().unwrap_or(1), &refs, env, st)
         }
+        "freshrace" => run_freshrace(
+            ["prefix", "infix", "postfix"].iter().find(|k| Some(**k) == case["kind"].as_str()).copied().unwrap_or("prefix"),
+            case["readers"].as_u64().unwrap_or(2) as usize,
+            case["words"].as_u64().unwrap_or(30_000),
+            env,
+            st,
+        ),
         "race" => {
             let cs: Vec<String> = case["calls"].as_array().map(|a| a.iter().map(|x| x.as_str().unwrap_or("").to_string()).collect()).unwrap_or_default();
             let refs: Vec<&str> = cs.iter().filter_map(|s| CALLS.iter().find(|c| **c == s.as_str()).copied()).collect();
@@ -794,7 +975,7 @@ fn replay(case: &J, st: &mut Stats, env: &Env) -> CaseResult {
             let k = REG_KINDS.iter().find(|c| Some(**c) == case["kind"].as_str()).copied().unwrap_or("infix");
             run_regrace(
                 k,
-                case["text"].as_u64().unwrap_or(0) as usize % 2,
+                case["text"].as_u64().unwrap_or(0) as usize % 3,
                 case["threads"].as_u64().unwrap_or(4) as usize,
                 case["iters"].as_u64().unwrap_or(2000),
                 case["directed"].as_bool().unwrap_or(false),
